@@ -59,6 +59,9 @@ func genC05(rng *rand.Rand, n int, emit func(Case), dist map[string]int) {
 			if c.QueryParam("q") != cur.q {
 				qOwner = 9999
 			}
+			if c.QueryParam("leak") != "" || len(c.QueryParams()["leak"]) > 0 { // no request carries it: only an earlier handler put it there
+				qOwner = 9998
+			}
 			var store []Sx
 			for _, k := range keys {
 				if v := c.Get(k); v != nil {
@@ -168,6 +171,10 @@ func genC05(rng *rand.Rand, n int, emit func(Case), dist map[string]int) {
 				continue
 			}
 			st := &reqState{id: k + 1, q: fmt.Sprintf("q%d", rng.Intn(1000)), fail: 0, restChk: rng.Intn(3) == 0}
+			if rng.Intn(3) == 0 {
+				st.q = ""
+				dist["requests_without_query"]++
+			}
 			cur = st
 			if rng.Intn(8) == 0 {
 				st.fail = 1 + rng.Intn(2)
@@ -256,7 +263,17 @@ func genC05(rng *rand.Rand, n int, emit func(Case), dist map[string]int) {
 					callerOwned = append(callerOwned, vs)
 					callerCopy = append(callerCopy, append([]string(nil), vs...))
 				case 6:
-					steps = append(steps, func(c echo.Context) { c.QueryParams() })
+					mut := rng.Intn(2) == 0
+					lv := fmt.Sprintf("leak%d", st.id)
+					steps = append(steps, func(c echo.Context) {
+						q := c.QueryParams()
+						if mut {
+							q.Set("leak", lv) // the handler fills in a default on ITS parsed query (the map is the request's own)
+						}
+					})
+					if mut {
+						dist["handler_mutated_parsed_query"]++
+					}
 					st.prog = append(st.prog, L(I(5)))
 				case 7:
 					hookID++
@@ -318,7 +335,11 @@ func genC05(rng *rand.Rand, n int, emit func(Case), dist map[string]int) {
 					f(c)
 				}
 			}
-			req := httptest.NewRequest("GET", path+"?q="+st.q, nil)
+			target := path + "?q=" + st.q
+			if st.q == "" {
+				target = path // a request without any query string
+			}
+			req := httptest.NewRequest("GET", target, nil)
 			req.Header.Set("X-Req", fmt.Sprint(st.id))
 			rec := httptest.NewRecorder()
 			panicked := false
